@@ -300,6 +300,8 @@ struct Rw<'a> {
     err: Option<String>,
     no_ufcs: bool,
     ufcs_calls: bool,
+    substs: Vec<(String, String)>,
+    subst_hits: Vec<usize>,
     after_pats: Vec<String>,   // squashed statement texts after which an `after["..."]` anchor is placed
     after_hits: Vec<usize>,    // how often each pattern matched
 }
@@ -477,6 +479,27 @@ impl<'a> VisitMut for Rw<'a> {
                     }
                 }
             }
+            // R13: statement substitution requested by the unit (an operator statement replaced by the method it dispatches to)
+            if !self.substs.is_empty() {
+                let txt = squash(&s.to_token_stream().to_string());
+                let mut replaced = None;
+                for (si, (from, to)) in self.substs.iter().enumerate() {
+                    if *from == txt {
+                        replaced = Some((si, to.clone()));
+                    }
+                }
+                if let Some((si, to)) = replaced {
+                    self.subst_hits[si] += 1;
+                    self.log.add("R13", "subst-stmt", format!("{txt} => {to}"));
+                    match syn::parse_str::<Stmt>(&to) {
+                        Ok(ns) => s = ns,
+                        Err(e) => {
+                            self.err = Some(format!("subst target does not parse: {e}"));
+                            continue;
+                        },
+                    }
+                }
+            }
             // R11: `x &= <comparison>` / `x |= <comparison>` on bools (Verus lacks non-short-circuit bool ops):
             //      evaluate the right side first (as Rust does), then combine with && / ||.
             if let Stmt::Expr(Expr::Binary(bin), Some(_)) = &s {
@@ -539,9 +562,7 @@ impl<'a> VisitMut for Rw<'a> {
             for (pi, pat) in self.after_pats.clone().iter().enumerate() {
                 if *pat == stmt_text {
                     self.after_hits[pi] += 1;
-                    if self.after_hits[pi] == 1 {
-                        out.push(marker("__vx_after", Some(pi)));
-                    }
+                    out.push(marker("__vx_after", Some(pi)));
                 }
             }
             if let Some(k) = loop_id {
@@ -769,6 +790,7 @@ struct UnitSpec {
     anchors: BTreeMap<String, String>,
     open_attrs: String, // extra attributes to print before the fn
     drop_const: bool,
+    substs: Vec<(String, String)>, // R13: statement-level substitution (operator -> the method it dispatches to)
     self_ty: Option<String>,  // R12: `Self` => this type parameter (trait default method verified as generic free fn)
     generics: Option<String>, // generic parameters to prepend
 }
@@ -807,9 +829,10 @@ fn gen_unit(ctx: &mut Ctx, u: &UnitSpec, report: &mut Vec<serde_json::Value>) ->
     };
     let sha = format!("{:x}", Sha256::digest(orig_tokens.as_bytes()));
 
-    let after_pats: Vec<String> = u.anchors.keys().filter_map(|k| k.strip_prefix("after[\"").and_then(|r| r.strip_suffix("\"]")).map(|p| squash(p))).collect();
+    let after_pats: Vec<String> = u.anchors.keys().filter_map(|k| k.strip_prefix("after[\"").or_else(|| k.strip_prefix("after*[\"")).and_then(|r| r.strip_suffix("\"]")).map(|p| squash(p))).collect();
+    let after_multi: Vec<bool> = u.anchors.keys().filter(|k| k.starts_with("after[\"") || k.starts_with("after*[\"")).map(|k| k.starts_with("after*")).collect();
     let n_after = after_pats.len();
-    let mut rw = Rw { ctx, log: &mut log, loops: 0, closures: 0, tmp: 0, err: None, no_ufcs: u.no_ufcs, ufcs_calls: u.ufcs_calls, after_pats, after_hits: vec![0; n_after] };
+    let mut rw = Rw { ctx, log: &mut log, loops: 0, closures: 0, tmp: 0, err: None, no_ufcs: u.no_ufcs, ufcs_calls: u.ufcs_calls, substs: u.substs.clone(), subst_hits: vec![0; u.substs.len()], after_pats, after_hits: vec![0; n_after] };
     // fn-level attributes
     match rw.strip_attrs(&mut fp.attrs, "fn") {
         Ok(true) => {},
@@ -853,6 +876,11 @@ fn gen_unit(ctx: &mut Ctx, u: &UnitSpec, report: &mut Vec<serde_json::Value>) ->
     }
     let nclosures = rw.closures;
     let nloops = rw.loops;
+    for (si, h) in rw.subst_hits.iter().enumerate() {
+        if *h == 0 {
+            die(&format!("anchor-lost: unit {} //@subst pattern `{}` matched no statement", u.name, rw.substs[si].0));
+        }
+    }
     let after_pats_final = rw.after_pats.clone();
     let after_hits_final = rw.after_hits.clone();
     if let Some(e) = rw.err.take() {
@@ -1001,15 +1029,16 @@ fn gen_unit(ctx: &mut Ctx, u: &UnitSpec, report: &mut Vec<serde_json::Value>) ->
         text = text.replace(&format!("__vx_closure_end!({k});"), e.trim_end());
     }
     for (pi, pat) in after_pats_final.iter().enumerate() {
-        if after_hits_final[pi] != 1 {
-            die(&format!("anchor-lost: unit {} `after[..]` pattern `{}` matched {} statements (need exactly 1)", u.name, pat, after_hits_final[pi]));
+        if after_hits_final[pi] == 0 || (after_hits_final[pi] != 1 && !after_multi[pi]) {
+            die(&format!("anchor-lost: unit {} `after[..]` pattern `{}` matched {} statements (need exactly 1, or >= 1 for after*)", u.name, pat, after_hits_final[pi]));
         }
-        let key = u.anchors.keys().find(|k| k.strip_prefix("after[\"").and_then(|r| r.strip_suffix("\"]")).map(|p| squash(p) == *pat).unwrap_or(false)).unwrap().clone();
+        let key = u.anchors.keys().find(|k| k.strip_prefix("after[\"").or_else(|| k.strip_prefix("after*[\"")).and_then(|r| r.strip_suffix("\"]")).map(|p| squash(p) == *pat).unwrap_or(false)).unwrap().clone();
         text = text.replace(&format!("__vx_after!({pi});"), u.anchors[&key].trim_end());
     }
     for key in u.anchors.keys() {
         let ok = key == "fn.begin"
             || key.starts_with("after[")
+            || key.starts_with("after*[")
             || (0..nclosures).any(|k| [format!("closure[{k}].spec"), format!("closure[{k}].begin"), format!("closure[{k}].end")].contains(key))
             || key == "fn.end"
             || (0..nloops).any(|k| {
@@ -1088,7 +1117,7 @@ fn gen_item(ctx: &mut Ctx, file: &str, sel: &str, strip_generics: bool, report: 
             st.generics = Default::default();
         }
     }
-    let mut rw = Rw { ctx, log: &mut log, loops: 0, closures: 0, tmp: 0, err: None, no_ufcs: false, ufcs_calls: false, after_pats: vec![], after_hits: vec![] };
+    let mut rw = Rw { ctx, log: &mut log, loops: 0, closures: 0, tmp: 0, err: None, no_ufcs: false, ufcs_calls: false, substs: vec![], subst_hits: vec![], after_pats: vec![], after_hits: vec![] };
     rw.visit_item_mut(&mut it);
     let toks = it.to_token_stream().to_string();
     let sha = format!("{:x}", Sha256::digest(toks.as_bytes()));
@@ -1340,6 +1369,14 @@ fn main() {
                     u.generics = kv.get("generics").cloned();
                     cur = Some(u);
                     cur_anchor = None;
+                },
+                "subst" => {
+                    let (l, r) = rest.split_once("=>").unwrap_or_else(|| die("subst: need =>"));
+                    if let Some(u) = cur.as_mut() {
+                        u.substs.push((squash(l), r.trim().to_string()));
+                    } else {
+                        die("//@subst outside //@unit");
+                    }
                 },
                 "spec" => {
                     cur_anchor = Some("spec".into());
